@@ -417,7 +417,7 @@ _ERR = {1: 'MultipleTempoError', 2: 'MultipleTimeSignatureError', 3: 'BadTimeSig
 def _norm_me(p):
     m, e = p
     if m == 0:
-        return [0, 0] if e in (0, -1074) or abs(e) < 9000 and e not in (9999, -9999, 7777) else [m, e]
+        return [0, e]
     while m % 2 == 0:
         m //= 2
         e += 1
@@ -440,20 +440,27 @@ _HALF = Fraction(1, 2)
 _REL = Fraction(1, 2 ** 50)
 
 
-def _step_verdict(step, p, exact_tie_claim=True):
-    """Is `step` the step nearest to the exact (rational) position p >= 0, ties up?
-    Within a 2^-50-relative neighbourhood of a half-step boundary either neighbour is accepted
-    (that is the float caveat made explicit in theorem q2s_nearest), except that an exact tie of
-    an exactly-representable product must go up."""
+def _accept(p, exact_tie_claim=True):
+    """(lo, hi, want): the steps accepted as "the step nearest to the exact rational position
+    p >= 0, ties up".  Outside a 2^-50-relative neighbourhood of a half-step boundary lo == hi ==
+    floor(p + 1/2); inside it either neighbour is accepted (the float caveat made explicit in
+    theorem q2s_nearest), except that an exact tie of an exactly representable product goes up."""
     want = math.floor(p + _HALF)
     d = _REL * (p + 1)
     lo = math.floor(p + _HALF - d)
     hi = math.floor(p + _HALF + d)
-    if lo == hi:
-        return None if step == want else 'not-nearest-step'
-    if exact_tie_claim and p + _HALF == want:      # exact tie: rounds up
-        return None if step == want else 'tie-not-rounded-up'
-    return None if lo <= step <= hi else 'not-nearest-step'
+    if lo != hi and exact_tie_claim and p + _HALF == want:
+        return want, want, want
+    return lo, hi, want
+
+
+def _step_verdict(step, p, exact_tie_claim=True):
+    lo, hi, want = _accept(p, exact_tie_claim)
+    if lo <= step <= hi:
+        return None
+    if exact_tie_claim and p + _HALF == want:
+        return 'tie-not-rounded-up'
+    return 'not-nearest-step'
 
 
 def _oracle_float_list(ts, sps, steps):
@@ -623,16 +630,10 @@ def _oracle_seq(case):
     if max_end is not None and tq < max_end:
         return {'kind': 'total-steps-do-not-cover-notes', 'total': tq, 'max_end': max_end, **wit}
     if ns.total_time >= 0:
-        # total = max(step(total_time), max end)
-        cands = [tq] if max_end is None or tq > max_end else None
-        if cands:
-            v = _step_verdict(tq, pos(ns.total_time), not rel)
-            if v:
-                return {'kind': 'total-steps-wrong', 'total': tq, 'want': math.floor(pos(ns.total_time) + _HALF), **wit}
-        else:
-            p = pos(ns.total_time)
-            if math.floor(p + _HALF - _REL * (p + 1)) > tq:
-                return {'kind': 'total-steps-wrong', 'total': tq, 'want': math.floor(p + _HALF), **wit}
+        # total_quantized_steps = max(step(total_time), every note end)
+        lo, hi, want = _accept(pos(ns.total_time), not rel)
+        if not any((s if max_end is None else max(s, max_end)) == tq for s in range(lo, hi + 1)):
+            return {'kind': 'total-steps-wrong', 'total': tq, 'want_total_time_step': want, 'max_end': max_end, **wit}
     for what, a, b in (('control-change', ns.control_changes, out.control_changes),
                        ('text-annotation', ns.text_annotations, out.text_annotations)):
         for i, (e, m) in enumerate(zip(a, b)):
